@@ -85,6 +85,17 @@ Proof.
 Qed.
 Print Assumptions C28_source_conditions.
 
+(** threshold() as written in the source reads ZOEKT_RE2_THRESHOLD_BYTES and returns -1 when it is unset, -1 when
+    strconv.ParseInt(_, 10, 64) rejects its text, the number otherwise — on every path and whatever uninterpreted conditions do
+    (never the first result of a failed ParseInt). *)
+Theorem C28_source_threshold : forall (opq : nat -> bool) e,
+  threshold_src opq e = Some (match e with EnvInt n => n | _ => -1 end) /\
+  threshold_env_name = "ZOEKT_RE2_THRESHOLD_BYTES"%string.
+Proof.
+  intros opq e. split; [|exact threshold_env_name_eq]. rewrite threshold_src_eq. destruct e; reflexivity.
+Qed.
+Print Assumptions C28_source_threshold.
+
 (** The dispatch is monotone in the input size: once RE2 is used for some length it is used for all longer inputs;
     disabled (negative / unset / unparsable) never uses it; 0 always does. *)
 Theorem C28_dispatch_shape : forall thr n n',
@@ -116,5 +127,9 @@ Example C28_nonvacuous :
   tree_ok (DIf CUsed (DRet RE2 ArgParam ArgParam) (DRet Grafana ArgParam ArgParam)) = true /\
   tree_ok (DIf CCompiled (DRet RE2 ArgParam ArgParam) (DRet Grafana ArgParam ArgParam)) = false /\
   tree_ok (DIf (CAnd CCompiled CUsed) (DRet RE2 ArgParam ArgDerived) (DRet Grafana ArgParam ArgParam)) = false /\
-  tree_ok (DIf (COpaque 0) (DRet RE2 ArgParam ArgParam) (DRet Grafana ArgParam ArgParam)) = false.
+  tree_ok (DIf (COpaque 0) (DRet RE2 ArgParam ArgParam) (DRet Grafana ArgParam ArgParam)) = false /\
+  ttree_ok (TIf TSet (TIf TParsedOk (TRet VParsed) (TRet (VConst (-1)))) (TRet (VConst (-1)))) = true /\
+  ttree_ok (TIf TSet (TRet VParsed) (TRet (VConst (-1)))) = false /\
+  ttree_ok (TIf TSet (TIf TParsedOk (TRet VParsed) (TRet (VConst 0))) (TRet (VConst (-1)))) = false /\
+  threshold_src (fun _ => true) (EnvInt 64) = Some 64 /\ threshold_src (fun _ => true) EnvBad = Some (-1).
 Proof. vm_compute. repeat split; reflexivity. Qed.
